@@ -10,7 +10,7 @@ CONSTANTS
   DoEmit = FALSE
   Tol = 1
   PairsMaxN = 60
-  Impl = TRUE
+  Impl = FALSE
 CONSTRAINT Diag
 POSTCONDITION TraceAccepted
 CHECK_DEADLOCK FALSE
